@@ -44,7 +44,24 @@ func roleStores(p *Prog, fn *ssa.Function, typ, field, connType string) (map[str
 			}
 		}
 		if role == "" {
-			errs = append(errs, "store at "+p.InstrPos(s.Instr)+" is not role-dependent")
+			// one store for both roles whose value was selected by the role earlier
+			// (tx, rx := a, b; if initiator { tx, rx = rx, tx }): resolve the merged
+			// value once per role
+			okBoth := true
+			for _, r := range []string{"initiator", "responder"} {
+				v, ok := resolveForRole(ff, s.Val, connType, r == "initiator", 0)
+				if !ok {
+					okBoth = false
+					break
+				}
+				t := p.newTermer()
+				t.at = s.Instr
+				out[r] = t.Term(v)
+				errs = append(errs, t.errs...)
+			}
+			if !okBoth {
+				errs = append(errs, "store at "+p.InstrPos(s.Instr)+" is not role-dependent")
+			}
 			continue
 		}
 		t := p.newTermer()
@@ -347,4 +364,35 @@ func c14PadKeys(c *Ctx, p *Prog, hs *ssa.Function, tC string) {
 	} else {
 		ob.HoldNT("%v", got)
 	}
+}
+
+// resolveForRole follows v through phis, keeping on each the single incoming
+// edge that is compatible with the given role (isInitiator == initiator).
+func resolveForRole(ff *FuncFacts, v ssa.Value, connType string, initiator bool, d int) (ssa.Value, bool) {
+	v = unspill(v)
+	phi, ok := v.(*ssa.Phi)
+	if !ok || d > 4 {
+		return v, ok == false
+	}
+	var cands []ssa.Value
+	for i, e := range phi.Edges {
+		pred := phi.Block().Preds[i]
+		fs := append([]Fact{}, ff.NC(pred)...)
+		if ef, ok := edgeFact(pred, phi.Block()); ok {
+			fs = append(fs, ef)
+		}
+		contradicts := false
+		for _, f := range fs {
+			if isFieldLoad(f.Cond, connType, "isInitiator") && f.Pol != initiator {
+				contradicts = true
+			}
+		}
+		if !contradicts {
+			cands = append(cands, e)
+		}
+	}
+	if len(cands) != 1 {
+		return v, false
+	}
+	return resolveForRole(ff, cands[0], connType, initiator, d+1)
 }
